@@ -7,6 +7,11 @@ _NOTE = ('Trusted: Lean 4.33.0 kernel; axioms propext/Classical.choice/Quot.soun
          'hash functions, refmt cbor decoding outside the canonical header subset, go-cid/go-multihash parsing as transcribed are parameters of the model. ')
 
 TEXT = {
+    'C20': {
+        'text': 'Kernel-checked for all sequences and options: deferred_lazy (any sequence of OnPut registrations and Has calls leaves the writer uncreated: no byte written, no file, Has = false — by induction over the sequence), first_put_is_direct / later_put_is_direct / close_is_finalize (from the first Put on every call is forwarded to a store created exactly as a direct writer creates it, so outputs are identical by construction and covered by C04/C05), fireLoop_spec + callbacks_fire_in_order (the index-based in-place removal loop fires every registered callback once per Put in registration order and removes exactly the once-only ones — induction over the callback list), closed_after_close. '
+                'The tie runs random sequences on real path and stream targets and compares, after every step, stream bytes / file existence and bytes / results / callbacks fired with the model and with a direct-writer specification.',
+        'note': _NOTE + 'File creation (os.OpenFile) and the BlockWriteOpener adapter are outside the model.',
+    },
     'C06': {
         'text': 'Kernel-checked for every option setting, root list, history and byte offset of the OPEN and PUT phases: crash_on_boundary (image cut after any number of complete sections: reopening succeeds with exactly those blocks — all acknowledged ones, only put ones — writer at the end, invariant re-established so continuing and finalizing is covered by C04/C05), crash_inside_section (image cut at ANY byte strictly inside the next section — length prefix, CID or data: reopening fails and the payload window is byte-for-byte untouched), acked_intact_after_refusal, crash_during_open (no write at all), write_order_facts (regenerated guard facts: index before header, section before index insertion, validations before mutation). With C12.finalize_reopen this also covers a crash after a completed Finalize. '
                 'PARTIAL: crash points inside Finalize between the index write and a valid header are not safe in general and are a listed known finding (D5); the header-torn-inside-DataSize case (D6) and the torn-data case (D4) were genuine defects, repaired. The tie records the REAL write trace (hook / recording file), requires it to equal the model\'s write list, and reopens every crash image (every write boundary, every byte of short writes) with the real library.',
